@@ -1059,7 +1059,11 @@ def observe_hugr(h, ctx, schema=True):
         s = h._to_serial()
         s.to_json()
         s2 = SerialHugr.load_json(json.loads(j))
-        o["pyd"] = bool(s2.model_dump_json() == j)      # validate(dump(s)) dumps to the same text
+        # validate(dump(s)) dumps to the same document, "compared as JSON values" (identity of the TEXT is a diagnostic)
+        j2 = s2.model_dump_json()
+        o["pyd"] = bool(json.loads(j2) == json.loads(j))
+        if j2 != j:
+            drift(ctx, "pydantic_redump_text_differs_from_to_json_text")
     except Exception as e:
         o["pyd"] = False
         o["pyd_error"] = type(e).__name__
@@ -1530,7 +1534,16 @@ class RT(fw.Prop):
             doc = json.loads(j)
             mods = []
             same = isinstance(doc.get("modules"), list) and len(doc["modules"]) == len(hs)
-            same = same and jb[10:].decode("utf-8") == j
+            # (the envelope is C09's subject: C03 only wants the JSON payload, where it can be read, to be this document)
+            try:
+                payload = json.loads(jb[10:].decode("utf-8"))
+            except Exception:
+                payload = None
+                drift(ctx, "package_to_bytes_payload_not_json_after_10_byte_header")
+            if payload is not None:
+                same = same and payload == json.loads(j)
+                if jb[10:].decode("utf-8") != j:
+                    drift(ctx, "package_to_bytes_payload_text_differs_from_to_json_text")
             for h, md in zip(hs, doc.get("modules", [])):
                 o = observe_hugr(h, ctx, schema=False)
                 if "skip" in o:
